@@ -1,7 +1,10 @@
 // racerun - C20 exploration, built with -race: N goroutines issue random read
 // operations on SHARED values through shared inspectors and write operations on
 // PRIVATE values with private buffers; every call's result is compared with the
-// result the same goroutine obtains when it runs alone.
+// result the same goroutine obtains when it runs alone.  Private values are built
+// in place (newObj) or derived from shared templates by Copy / CopyTo (derived.go);
+// for the latter each goroutine also checks that they hold what it stored itself.
+// RACERUN_TRACE=1 prints every goroutine's calls and results (the run alone).
 //
 //	racerun <seed> <goroutines> <ops-per-goroutine>
 package main
@@ -58,16 +61,20 @@ var (
 	getPaths = [][]string{{"Id"}, {"Name"}, {"Status"}, {"Finance", "Balance"}, {"Finance", "History", "1", "Comment"}, {"HistoryTree", "x", "Cost"}, {"Flags", "export"}, {"Permission", "15"}, {"Nope"}, {"Finance", "History", "7"}}
 )
 
-// one goroutine's work: deterministic in (seed, gid); results are returned as texts
-func work(seed int64, gid, nops int) []string {
+// one goroutine's work: deterministic in (seed, gid); results are returned as texts, and the
+// cases in which a private value did not hold what the goroutine itself had stored there.
+// written() is called when the goroutine has issued its last write operation and returns when
+// every goroutine has (alone: at once); the private values are then read once more.
+func work(seed int64, gid, nops int, written func()) ([]string, []string) {
 	r := rand.New(rand.NewSource(seed*1000 + int64(gid)))
 	private := newObj()
 	pbuf := inspector.NewByteBuffer(64)
 	var lbuf []byte
-	out := make([]string, 0, nops)
+	out := make([]string, 0, nops+1)
+	ds := &derivedState{}
 	for k := 0; k < nops; k++ {
 		var res string
-		switch r.Intn(16) {
+		switch r.Intn(20) {
 		case 0, 1, 2:
 			v, err := objIns.Get(shared, getPaths[r.Intn(len(getPaths))]...)
 			res = "get " + emit.DumpDeref(reflect.ValueOf(v)) + " " + fmt.Sprint(err)
@@ -138,10 +145,15 @@ func work(seed int64, gid, nops int) []string {
 			ok := inspector.Assign(&d, strconv.Itoa(r.Intn(1000)))
 			ok2 := inspector.AssignBuf(&s, r.Intn(1000), pbuf)
 			res = fmt.Sprint("assign ", d, s, ok, ok2)
+		default:
+			// private values derived from shared ones (derived.go)
+			res = ds.step(r)
 		}
 		out = append(out, res)
 	}
-	return out
+	written()
+	out = append(out, ds.final())
+	return out, ds.bad
 }
 
 func main() {
@@ -149,16 +161,35 @@ func main() {
 	g, _ := strconv.Atoi(os.Args[2])
 	nops, _ := strconv.Atoi(os.Args[3])
 	conc := make([][]string, g)
-	var wg sync.WaitGroup
+	bad := make([][]string, g)
+	var wg, writers sync.WaitGroup
+	writers.Add(g)
+	start := make(chan struct{}) // all goroutines begin together
 	for i := 0; i < g; i++ {
 		wg.Add(1)
-		go func(i int) { defer wg.Done(); conc[i] = work(seed, i, nops) }(i)
+		go func(i int) {
+			defer wg.Done()
+			<-start
+			conc[i], bad[i] = work(seed, i, nops, func() { writers.Done(); writers.Wait() })
+		}(i)
 	}
+	close(start)
 	wg.Wait()
-	mism := 0
+	mism, foreign := 0, 0
 	first := ""
 	for i := 0; i < g; i++ {
-		alone := work(seed, i, nops)
+		alone, badAlone := work(seed, i, nops, func() {})
+		if os.Getenv("RACERUN_TRACE") != "" {
+			for k, a := range alone {
+				fmt.Printf("g%d.%d %s\n", i, k, a)
+			}
+		}
+		for _, b := range append(bad[i], badAlone...) {
+			foreign++
+			if first == "" {
+				first = fmt.Sprintf("goroutine %d: a private value does not hold what the goroutine stored: %s", i, b)
+			}
+		}
 		for k := range alone {
 			if alone[k] != conc[i][k] {
 				mism++
@@ -168,8 +199,8 @@ func main() {
 			}
 		}
 	}
-	fmt.Printf("calls=%d mismatches=%d %s\n", g*nops, mism, first)
-	if mism > 0 {
+	fmt.Printf("calls=%d mismatches=%d not-as-stored=%d %s\n", g*(nops+1), mism, foreign, first)
+	if mism > 0 || foreign > 0 {
 		os.Exit(3)
 	}
 }
